@@ -110,9 +110,13 @@ sfd_tran_pipe_stop(void *arg)
 	nni_aio_stop(&p->rxaio);
 	nni_aio_stop(&p->txaio);
 	nni_aio_stop(&p->negoaio);
-	nni_mtx_lock(&ep->mtx);
-	nni_list_node_remove(&p->node);
-	nni_mtx_unlock(&ep->mtx);
+	// The endpoint is unknown if pipe creation failed before the
+	// pipe was started; it is on no list then.
+	if (ep != NULL) {
+		nni_mtx_lock(&ep->mtx);
+		nni_list_node_remove(&p->node);
+		nni_mtx_unlock(&ep->mtx);
+	}
 }
 
 static const nng_sockaddr *
